@@ -2,7 +2,7 @@
 import json
 import os
 
-from contracts import regex_tables
+from contracts import regex_tables, regex_hand
 from vxlib import gen, regexgen, regexspec
 from vxlib.common import Obligation, Undecided, VERIF, run
 
@@ -91,6 +91,22 @@ def check(ctx):
 
     # --- Verus: the 13 loops (parametric in the reference automaton)
     ctx.verus_unit(regex_tables.make_unit(infos), finder=None)
+
+    # --- Verus: hand-written validators whose minimal DFA is a DAG plus self-loops (1,4,5,6,7,8,10,11,19,20,23,27):
+    # the same contract, with a *concrete* reference automaton and a generated, Verus-proved closed form of its run
+    def hand_finder(ob):
+        import re as _re
+        m = _re.search(r'validate_regex_(\d+)', ob.fn or ob.name)
+        if not m or int(m.group(1)) not in infos:
+            return None
+        n = int(m.group(1))
+        return dict(module='regex', check='regex_%d' % n, alphabet=infos[n]['dfa'].live_alphabet(), maxlen=5, timeout=120)
+    try:
+        hu = regex_hand.make_unit(infos)
+        ctx.verus_unit(hu, finder=hand_finder)
+        ctx.extra_cov['hand_validators_proved_unbounded'] = {str(n): sh for n, sh in hu.shapes.items()}
+    except Exception as e:   # Lost: DFA shape outside the generated lemma -> undecided, the bounded checks below still run
+        ctx.undecided.append('regex_hand reason=%s' % e)
 
     # --- Kani: step lemmas (complete) and equality harnesses for hand-written validators (bounded)
     ctx.attach()
